@@ -112,17 +112,29 @@ struct Universe {
 
 fn make_instrument(exchange: ExchangeId, spec: &InstSpec) -> Instrument<ExchangeId, Asset> {
     let (base, quote) = UL[spec.ul];
+    // the venue's trading rules of the derivatives (quantities in CONTRACTS, whole contracts / tenths of a contract
+    // at a time): a position that is not a multiple of the increment is still closed by an order of EQUAL quantity
+    use barter_instrument::instrument::spec::{InstrumentSpec, InstrumentSpecNotional, InstrumentSpecPrice, InstrumentSpecQuantity, OrderQuantityUnits};
+    let rules = |increment: Decimal| InstrumentSpec {
+        price: InstrumentSpecPrice { min: Decimal::new(1, 2), tick_size: Decimal::new(1, 2) },
+        quantity: InstrumentSpecQuantity { unit: OrderQuantityUnits::Contract, min: increment, increment },
+        notional: InstrumentSpecNotional { min: Decimal::ONE },
+    };
     match spec.kind {
         0 => fixtures::spot(exchange, base, quote),
-        1 => fixtures::perp(exchange, base, quote, quote),
+        1 => {
+            let mut p = fixtures::perp(exchange, base, quote, quote);
+            p.spec = Some(rules(Decimal::ONE));
+            p
+        }
         _ => Instrument::new(
             exchange,
             format!("{}-{}_{}_iperp", exchange.as_str(), base, quote),
             format!("{}{}-IPERP", base.to_uppercase(), quote.to_uppercase()),
             Underlying::new(Asset::new(base, base.to_uppercase()), Asset::new(quote, quote.to_uppercase())),
             InstrumentQuoteAsset::UnderlyingQuote,
-            InstrumentKind::Perpetual(PerpetualContract { contract_size: Decimal::ONE, settlement_asset: Asset::new(base, base.to_uppercase()) }),
-            None,
+            InstrumentKind::Perpetual(PerpetualContract { contract_size: Decimal::from(10), settlement_asset: Asset::new(base, base.to_uppercase()) }),
+            Some(rules(Decimal::new(1, 1))),
         ),
     }
 }
